@@ -177,12 +177,15 @@ class VoronoiFPS(GreedySelector):
 
             lower_fraction = 0
             top_fraction = 1
+            # the timing trials draw from a private generator: how many numbers they
+            # consume depends on the measured times, and that must not advance a
+            # generator instance passed as random_state (it picks the initial point)
+            trial_state = np.random.RandomState(0)
             while top_fraction - lower_fraction > 0.01:
                 voronoi_fps_times = np.zeros(self.n_trial_calculation)
                 self.full_fraction = (top_fraction + lower_fraction) / 2
                 for i in range(self.n_trial_calculation):
-                    random_state = check_random_state(self.random_state)
-                    sel = random_state.randint(
+                    sel = trial_state.randint(
                         n_to_select_from,
                         size=int(n_to_select_from * self.full_fraction),
                     )
